@@ -1209,3 +1209,193 @@ Section ProfileCounts.
     - intros [card Hc]. apply (plook_pos_pmem _ _ _ card). rewrite SumI. assumption.
   Qed.
 End ProfileCounts.
+
+(** ** (c) direct features do not depend on the inverse flag
+
+    The run without inverse paths is the run with inverse paths with every
+    inverse component erased ([strip_i] on instances, [strip_c] on classes):
+    a simulation, so the equality is structural (order included). *)
+
+Definition strip_i (e : ientry) : ientry :=
+  {| i_classes := i_classes e; i_direct := i_direct e; i_inverse := [] |}.
+
+Definition strip_c (e : centry) : centry :=
+  {| c_direct := c_direct e; c_inverse := [] |}.
+
+Lemma shapes_of_strip J id : shapes_of (dmapv strip_i J) id = shapes_of J id.
+Proof. unfold shapes_of. rewrite dget_dmapv. destruct (dget J id); reflexivity. Qed.
+
+Lemma tracked_strip J id : tracked (dmapv strip_i J) id = tracked J id.
+Proof. apply dmem_dmapv. Qed.
+
+Lemma annotate_subject_strip tau J t :
+  annotate_subject tau (dmapv strip_i J) t =
+  match annotate_subject tau J t with
+  | inl J' => inl (dmapv strip_i J')
+  | inr e => inr e
+  end.
+Proof.
+  unfold annotate_subject. destruct (type_of_obj tau (tp t) (to t)) as [ty|]; [|reflexivity].
+  f_equal. destruct (to t) as [n|c dt]; [rewrite shapes_of_strip|];
+    (apply dupd_dmapv; [reflexivity | intros v; reflexivity]).
+Qed.
+
+Lemma annotate_object_strip tau J t o :
+  tracked J (nid o) = true -> dmapv strip_i (annotate_object tau J t o) = dmapv strip_i J.
+Proof.
+  intros H. unfold annotate_object. apply dmapv_dupd_absorb; [intros v; reflexivity | exact H].
+Qed.
+
+Lemma annotate_triple_strip tau J t :
+  annotate_triple tau false (dmapv strip_i J) t =
+  match annotate_triple tau true J t with
+  | inl J' => inl (dmapv strip_i J')
+  | inr e => inr e
+  end.
+Proof.
+  unfold annotate_triple. rewrite tracked_strip.
+  destruct (tracked J (nid (ts t))).
+  - rewrite annotate_subject_strip. destruct (annotate_subject tau J t) as [J1|e]; [|reflexivity].
+    destruct (to t) as [o|c dt]; [|reflexivity].
+    destruct (tracked J1 (nid o)) eqn:Htr; [|reflexivity].
+    rewrite annotate_object_strip by assumption. reflexivity.
+  - destruct (to t) as [o|c dt]; [|reflexivity].
+    destruct (tracked J (nid o)) eqn:Htr; [|reflexivity].
+    rewrite annotate_object_strip by assumption. reflexivity.
+Qed.
+
+Lemma annotate_all_strip tau g : forall J,
+  annotate_all tau false g (dmapv strip_i J) =
+  match annotate_all tau true g J with
+  | inl ID => inl (dmapv strip_i ID)
+  | inr e => inr e
+  end.
+Proof.
+  induction g as [|t g IH]; intros J; cbn [annotate_all]; [reflexivity|].
+  rewrite annotate_triple_strip. destruct (annotate_triple tau true J t) as [J'|e]; [|reflexivity].
+  apply IH.
+Qed.
+
+Lemma strip_adapt I : dmapv strip_i (adapt I) = adapt I.
+Proof. unfold adapt, dmapv. rewrite map_map. reflexivity. Qed.
+
+(** the feature pass: same outcome class, same direct features *)
+Lemma annotate_all_inverse_flag tau g I :
+  annotate_all tau false g (adapt I) =
+  match annotate_all tau true g (adapt I) with
+  | inl ID => inl (dmapv strip_i ID)
+  | inr e => inr e
+  end.
+Proof. rewrite <- (strip_adapt I) at 1. apply annotate_all_strip. Qed.
+
+Lemma for_class_strip d P c :
+  annotate_instance_for_class d (dmapv strip_c P) c =
+  dmapv strip_c (annotate_instance_for_class d P c).
+Proof.
+  unfold annotate_instance_for_class. apply dupd_dmapv; [reflexivity | intros v; reflexivity].
+Qed.
+
+Lemma fold_for_class_strip d cs : forall P,
+  fold_left (annotate_instance_for_class d) cs (dmapv strip_c P) =
+  dmapv strip_c (fold_left (annotate_instance_for_class d) cs P).
+Proof.
+  induction cs as [|c cs IH]; intros P; cbn [fold_left]; [reflexivity|].
+  rewrite for_class_strip. apply IH.
+Qed.
+
+Lemma dmem_fold_for_class d cs : forall P c,
+  dmem (fold_left (annotate_instance_for_class d) cs P) c = dmem P c || mem_str c cs.
+Proof.
+  induction cs as [|c0 cs IH]; intros P c; cbn [fold_left mem_str]; [rewrite orb_false_r; reflexivity|].
+  rewrite IH. unfold annotate_instance_for_class. rewrite dmem_dupd, (str_eqb_sym c0 c).
+  destruct (str_eqb c c0), (dmem P c), (mem_str c cs); reflexivity.
+Qed.
+
+Lemma fold_inv_for_class_absorb d cs : forall P,
+  (forall c, In c cs -> dmem P c = true) ->
+  dmapv strip_c (fold_left (annotate_instance_inv_for_class d) cs P) = dmapv strip_c P.
+Proof.
+  induction cs as [|c0 cs IH]; intros P H; cbn [fold_left]; [reflexivity|].
+  rewrite IH.
+  - unfold annotate_instance_inv_for_class. apply dmapv_dupd_absorb; [intros v; reflexivity|].
+    apply H. left. reflexivity.
+  - intros c Hc. unfold annotate_instance_inv_for_class. rewrite dmem_dupd.
+    rewrite (H c) by (right; assumption). apply orb_true_r.
+Qed.
+
+Lemma annotate_instance_strip tau P e :
+  annotate_instance tau false (dmapv strip_c P) (strip_i e) =
+  dmapv strip_c (annotate_instance tau true P e).
+Proof.
+  unfold annotate_instance. cbn [strip_i i_classes i_direct].
+  rewrite fold_for_class_strip. symmetry. apply fold_inv_for_class_absorb.
+  intros c Hc. rewrite dmem_fold_for_class. apply mem_str_In in Hc. rewrite Hc. apply orb_true_r.
+Qed.
+
+Lemma build_profile_strip tau ID : forall P,
+  build_profile tau false (dmapv strip_i ID) (dmapv strip_c P) =
+  dmapv strip_c (build_profile tau true ID P).
+Proof.
+  unfold build_profile. induction ID as [|[i e] ID IH]; intros P; cbn [fold_left dmapv map fst snd]; [reflexivity|].
+  rewrite annotate_instance_strip. apply IH.
+Qed.
+
+Definition set_inverse (c : pcfg) (b : bool) : pcfg :=
+  {| p_tau := p_tau c; p_inverse := b; p_remove_empty := p_remove_empty c;
+     p_targets := p_targets c; p_map_labels := p_map_labels c |}.
+
+Lemma raw_profile_strip cfg I ID P1 C0 :
+  raw_profile (set_inverse cfg true) I ID = (P1, C0) ->
+  raw_profile (set_inverse cfg false) I (dmapv strip_i ID) = (dmapv strip_c P1, C0).
+Proof.
+  unfold raw_profile, targets_of. cbn [set_inverse p_targets p_tau p_inverse].
+  destruct (init_annotated I (init_targets match p_targets cfg with Some l => l | None => [] end))
+    as [P0 C0'] eqn:HI.
+  intros E. injection E as E1 E2. subst C0' P1. f_equal.
+  destruct (init_char _ _ _ _ HI) as [_ [_ [EP _]]].
+  rewrite <- build_profile_strip. f_equal. symmetry. apply dmapv_id.
+  apply Forall_forall. intros ce Hce. rewrite Forall_forall in EP. rewrite (EP ce Hce). reflexivity.
+Qed.
+
+(** *** (c), without cleaning: the whole result of the run without inverse
+    paths is the stripped result of the run with inverse paths -- in
+    particular both runs succeed or fail together *)
+Theorem profile_inverse_flag_raw cfg I G :
+  p_remove_empty cfg = false ->
+  profile (set_inverse cfg false) I G =
+  match profile (set_inverse cfg true) I G with
+  | inl (P, C, ID) => inl (dmapv strip_c P, C, dmapv strip_i ID)
+  | inr e => inr e
+  end.
+Proof.
+  intros HR. rewrite !profile_unfold. cbn [set_inverse p_tau p_inverse p_remove_empty]. rewrite HR.
+  rewrite annotate_all_inverse_flag.
+  destruct (annotate_all (p_tau cfg) true G (adapt I)) as [ID|e]; [|reflexivity].
+  destruct (raw_profile (set_inverse cfg true) I ID) as [P1 C0] eqn:E.
+  rewrite (raw_profile_strip cfg I ID P1 C0 E). reflexivity.
+Qed.
+
+Lemma dget_strip_c P c : dget (dmapv strip_c P) c = option_map strip_c (dget P c).
+Proof. apply dget_dmapv. Qed.
+
+(** the statement in "both runs succeed" form *)
+Theorem profile_direct_independent_of_inverse cfg I G Pt Ct IDt Pf Cf IDf :
+  p_remove_empty cfg = false ->
+  profile (set_inverse cfg true) I G = inl (Pt, Ct, IDt) ->
+  profile (set_inverse cfg false) I G = inl (Pf, Cf, IDf) ->
+  Cf = Ct /\
+  dkeys Pf = dkeys Pt /\
+  map (fun ce : str * centry => (fst ce, c_direct (snd ce))) Pf =
+  map (fun ce : str * centry => (fst ce, c_direct (snd ce))) Pt /\
+  (forall c et ef, dget Pt c = Some et -> dget Pf c = Some ef -> c_direct ef = c_direct et) /\
+  map (fun ie : str * ientry => (fst ie, i_direct (snd ie))) IDf =
+  map (fun ie : str * ientry => (fst ie, i_direct (snd ie))) IDt.
+Proof.
+  intros HR Ht Hf. rewrite (profile_inverse_flag_raw cfg I G HR), Ht in Hf.
+  injection Hf as E1 E2 E3. subst Pf Cf IDf.
+  split; [reflexivity|]. split; [apply dkeys_dmapv|]. split.
+  { unfold dmapv. rewrite map_map. reflexivity. }
+  split.
+  { intros c et ef H1 H2. rewrite dget_strip_c, H1 in H2. cbn in H2. injection H2 as <-. reflexivity. }
+  unfold dmapv. rewrite map_map. reflexivity.
+Qed.
